@@ -452,6 +452,20 @@ func runC05(r *vf.Run) {
 					r.Violation(id+"/caller-owned-handle", "open", err.Error())
 					return
 				}
+				// (round 9) the schema copy GetSchema hands out is the caller's; the next GetSchema shows the data again
+				if sc := kept.GetSchema(); sc != nil {
+					for ci := range sc.Columns {
+						vs := sc.Columns[ci].Values
+						for i := range vs {
+							vs[i].Value = "overwritten by the caller"
+						}
+						sc.Columns[ci].Name = "renamed by the caller"
+					}
+					if d := oracle.CompareSchema(kept.GetSchema(), ds.Rows); d != "" {
+						r.Violation(id+"/caller-owned-handle", "schema", map[string]any{"difference": head(d, 600), "explanation": "GetSchema after the caller had overwritten the copy an earlier GetSchema call gave it"})
+						return
+					}
+				}
 				for round := 0; round < 3; round++ {
 					for k := 0; k < 3; k++ {
 						var opts []updog.IndexOption
